@@ -125,9 +125,15 @@ func DecodePointer(reader io.Reader) (*Pointer, error) {
 // If the pointer could not be decoded, an io.Reader containing the entire
 // blob's data will be returned, along with a parse error.
 func DecodeFrom(reader io.Reader) (*Pointer, io.Reader, error) {
+	// Fill the buffer as far as the input allows: a single Read() may
+	// return fewer bytes than are available (pipes, packet readers), and a
+	// short first chunk must not be mistaken for the whole input.
 	buf := make([]byte, blobSizeCutoff)
-	n, err := reader.Read(buf)
+	n, err := io.ReadFull(reader, buf)
 	buf = buf[:n]
+	if err == io.ErrUnexpectedEOF {
+		err = io.EOF
+	}
 
 	var contents io.Reader = bytes.NewReader(buf)
 	if err != io.EOF {
